@@ -39,7 +39,24 @@ def _fn(path, cls, name, params=None, last=True):
     f = fs[-1] if last else fs[0]
     if params is not None and [a.arg for a in f.args.args] != params:
         raise T.Broken(f"unexpected parameters of {cls}.{name}: {[a.arg for a in f.args.args]}")
-    return f
+    return _normalised(f)
+
+
+def _normalised(f):
+    """the function with its LOCAL variables renamed v0, v1, ... in order of first binding and the docstring dropped
+    (pyexpr.normalized_statements): everything below - translation and skeletons - is insensitive to the names of
+    locals, to docstrings, comments and formatting"""
+    g = copy.deepcopy(f)
+    g.body = ast.parse("\n".join(pyexpr.normalized_statements(f))).body
+    return g
+
+
+_MSG = __import__("re").compile(r"raise (\w+)\((?:f?'(?:[^'\\]|\\.)*'|f?\"(?:[^\"\\]|\\.)*\")\)")
+
+
+def _nomsg(text):
+    """exception MESSAGE texts are not part of the skeleton"""
+    return _MSG.sub(r"raise \1(<msg>)", text)
 
 
 def _stmts(fn):
@@ -249,14 +266,15 @@ def c_leg_heading():
     """per axis: one, two the coordinates of pos_1, pos_2, size the extent of the axis"""
     fn = _fn(LEG, "ContinuousSpace", "get_heading", ["self", "pos_1", "pos_2"])
     helpers = [n for n in ast.walk(fn) if isinstance(n, ast.FunctionDef) and n is not fn]
-    if len(helpers) != 1 or helpers[0].name != "get_min_abs" or [a.arg for a in helpers[0].args.args] != ["x", "y"]:
-        raise T.Broken("expected the nested helper get_min_abs(x, y)")
+    if len(helpers) != 1 or len(helpers[0].args.args) != 2:
+        raise T.Broken("expected one nested two-argument helper (get_min_abs)")
     hbody = _tr().body(_stmts(helpers[0]), "Z")
+    hx, hy = (a.arg for a in helpers[0].args.args)
 
     def gma(args):
         if len(args) != 2 or any(k != "Z" for _, k in args):
-            raise pyexpr.Unsupported("get_min_abs arguments")
-        return f"(let x := {args[0][0]} in let y := {args[1][0]} in {hbody})", "Z"
+            raise pyexpr.Unsupported("helper arguments")
+        return f"(let {hx} := {args[0][0]} in let {hy} := {args[1][0]} in {hbody})", "Z"
 
     def strip(stmts):
         out = []
@@ -269,31 +287,34 @@ def c_leg_heading():
                 s.orelse = strip(s.orelse)
             out.append(s)
         return out
-    stmts = _axis(strip(_stmts(fn)), vec=["heading", "inverse_heading"])
-    tr = _tr(bools=["torus"], attrs={"size": "size", "torus": "torus"}, calls={"get_min_abs": gma})
+    stmts = _axis(strip(_stmts(fn)), vec=pyexpr.local_names(fn))
+    tr = _tr(bools=["torus"], attrs={"size": "size", "torus": "torus"}, calls={helpers[0].name: gma})
     body = tr.body(stmts, "Z")
     return f"Definition gen_cs_heading_axis (size : Z) (torus : bool) (pos_1 pos_2 : Z) : Z :=\n  {body}."
 
 
 def _nbr_parts():
+    """the five arithmetic statements of get_neighbors, found by position and shape (names are v0, v1, ...)"""
     fn = _fn(LEG, "ContinuousSpace", "get_neighbors", ["self", "pos", "radius", "include_center"])
     st = _stmts(fn)
-    find = lambda pred: [s for s in st if pred(s)]  # noqa: E731
-    deltas = find(lambda s: isinstance(s, ast.Assign) and ast.unparse(s.targets[0]) == "deltas")
-    tor = find(lambda s: isinstance(s, ast.If) and ast.unparse(s.test) == "self.torus")
-    dists = find(lambda s: isinstance(s, ast.Assign) and ast.unparse(s.targets[0]) == "dists")
-    where = find(lambda s: isinstance(s, ast.Assign) and ast.unparse(s.targets[0]) == "(idxs,)")
-    nb = find(lambda s: isinstance(s, ast.Assign) and ast.unparse(s.targets[0]) == "neighbors")
-    if not (len(deltas) == 1 and len(tor) == 1 and len(dists) == 1 and len(where) == 1 and len(nb) == 1):
+    if len(st) != 8:
+        raise T.Broken(f"get_neighbors has {len(st)} statements, expected 8")
+    deltas, tor, dists, where, nb = st[2:7]
+    ok = (isinstance(deltas, ast.Assign) and isinstance(deltas.targets[0], ast.Name)
+          and isinstance(tor, ast.If) and ast.unparse(tor.test) == "self.torus" and not tor.orelse
+          and isinstance(dists, ast.Assign) and isinstance(dists.targets[0], ast.Name)
+          and isinstance(where, ast.Assign) and isinstance(where.targets[0], ast.Tuple) and len(where.targets[0].elts) == 1
+          and isinstance(nb, ast.Assign) and isinstance(nb.targets[0], ast.Name))
+    if not ok:
         raise T.Broken("get_neighbors: expected deltas / if self.torus / dists / (idxs,) / neighbors statements")
-    return fn, st, deltas[0], tor[0], dists[0], where[0], nb[0]
+    return fn, st, deltas, tor, dists, where, nb
 
 
 @_guard
 def c_leg_nbr_delta():
     """deltas = |cached point - query point| per axis, on a torus min(deltas, size - deltas)"""
     fn, st, deltas, tor, dists, where, nb = _nbr_parts()
-    ret = ast.Return(value=ast.Name(id="deltas", ctx=ast.Load()))
+    ret = ast.Return(value=ast.Name(id=deltas.targets[0].id, ctx=ast.Load()))
     stmts = _axis([deltas, tor, ret])
     # self._agent_points -> the agent's coordinate, pos -> the query coordinate
     tr = _tr(bools=["torus"], attrs={"size": "size", "torus": "torus", "_agent_points": "agent_point"})
@@ -305,13 +326,14 @@ def c_leg_nbr_delta():
 def c_leg_nbr_dist2():
     """dists = deltas[:, 0] ** 2 + deltas[:, 1] ** 2  with the two axis readings d0, d1"""
     fn, st, deltas, tor, dists, where, nb = _nbr_parts()
+    dname = deltas.targets[0].id
 
     class Two(ast.NodeTransformer):
         def visit_Subscript(self, n):
             src = ast.unparse(n)
-            if src == "deltas[:, 0]":
+            if src == dname + "[:, 0]":
                 return ast.Name(id="d0", ctx=ast.Load())
-            if src == "deltas[:, 1]":
+            if src == dname + "[:, 1]":
                 return ast.Name(id="d1", ctx=ast.Load())
             raise pyexpr.Unsupported("unexpected subscript " + src)
     e = Two().visit(copy.deepcopy(dists.value))
@@ -329,20 +351,25 @@ def c_leg_nbr_select():
     if not (isinstance(w, ast.Call) and ast.unparse(w.func) == "np.where" and len(w.args) == 1):
         raise T.Broken("(idxs,) is not np.where(<condition>)")
     lc = nb.value
-    if not (isinstance(lc, ast.ListComp) and ast.unparse(lc.elt) == "self._index_to_agent[x]" and len(lc.generators) == 1
-            and ast.unparse(lc.generators[0].target) == "x" and ast.unparse(lc.generators[0].iter) == "idxs"
-            and len(lc.generators[0].ifs) == 1):
+    dn = dists.targets[0].id
+    ix = ast.unparse(where.targets[0].elts[0])
+    if not (isinstance(lc, ast.ListComp) and len(lc.generators) == 1 and isinstance(lc.generators[0].target, ast.Name)
+            and ast.unparse(lc.elt) == f"self._index_to_agent[{lc.generators[0].target.id}]"
+            and ast.unparse(lc.generators[0].iter) == ix and len(lc.generators[0].ifs) == 1):
         raise T.Broken("neighbors is not [self._index_to_agent[x] for x in idxs if <condition>]")
     tr = _tr(bools=["include_center"])
-    c1 = tr.bexpr(_axis([ast.Expr(value=w.args[0])], vec=["dists"])[0].value)
-    c2 = tr.bexpr(_axis([ast.Expr(value=lc.generators[0].ifs[0])], vec=["dists"])[0].value)
-    return (f"Definition gen_cs_nbr_select (dists radius : Z) (include_center : bool) : bool :=\n  ({c1} && {c2}).")
+    c1 = tr.bexpr(_axis([ast.Expr(value=w.args[0])], vec=[dn])[0].value)
+    c2 = tr.bexpr(_axis([ast.Expr(value=lc.generators[0].ifs[0])], vec=[dn])[0].value)
+    return (f"Definition gen_cs_nbr_select ({dn} radius : Z) (include_center : bool) : bool :=\n  ({c1} && {c2}).")
 
 
 def _skel(name, fn, want, mapper=None):
+    """statement-for-statement comparison of an (already normalised: locals v0, v1, ...) function, exception
+    message texts abstracted; `mapper` replaces the statements that are translated elsewhere by placeholders"""
     got = [ast.unparse(s) for s in _stmts(fn)]
     if mapper:
         got = [mapper(g) for g in got]
+    got = [_nomsg(g) for g in got]
     if got != want:
         diff = [f"{a!r} != {b!r}" for a, b in zip(got, want) if a != b] or [f"{len(got)} statements, expected {len(want)}"]
         raise T.Broken(f"statement skeleton of {name} changed: {diff[0][:220]}")
@@ -356,21 +383,21 @@ def c_leg_skeleton():
         "pos = self.torus_adj(pos)", "self._invalidate_agent_cache()", "self._agent_to_index[agent] = None", "agent.pos = pos"])
     _skel("move_agent", _fn(LEG, C, "move_agent", ["self", "agent", "pos"]), [
         "pos = self.torus_adj(pos)", "agent.pos = pos",
-        "if self._agent_points is not None:\n    idx = self._agent_to_index[agent]\n    self._agent_points[idx] = pos"])
+        "if self._agent_points is not None:\n    v0 = self._agent_to_index[agent]\n    self._agent_points[v0] = pos"])
     _skel("remove_agent", _fn(LEG, C, "remove_agent", ["self", "agent"]), [
-        "if agent not in self._agent_to_index:\n    raise Exception('Agent does not exist in the space')",
+        "if agent not in self._agent_to_index:\n    raise Exception(<msg>)",
         "del self._agent_to_index[agent]", "self._invalidate_agent_cache()", "agent.pos = None"])
     _skel("_invalidate_agent_cache", _fn(LEG, C, "_invalidate_agent_cache", ["self"]), [
         "self._agent_points = None", "self._index_to_agent = {}"])
     _skel("_build_agent_cache", _fn(LEG, C, "_build_agent_cache", ["self"]), [
         "self._index_to_agent = {}",
-        "for idx, agent in enumerate(self._agent_to_index):\n    self._agent_to_index[agent] = idx\n    self._index_to_agent[idx] = agent",
-        "self._agent_points = np.array([agent.pos for agent in self._agent_to_index], dtype=float)"])
+        "for v0, v1 in enumerate(self._agent_to_index):\n    self._agent_to_index[v1] = v0\n    self._index_to_agent[v0] = v1",
+        "self._agent_points = np.array([v1.pos for v1 in self._agent_to_index], dtype=float)"])
     fn, st, deltas, tor, dists, where, nb = _nbr_parts()
     _skel("get_neighbors", fn, [
         "if not self._agent_to_index:\n    return []",
         "if self._agent_points is None:\n    self._build_agent_cache()",
-        "<deltas>", "<torus>", "<dists>", "<where>", "<neighbors>", "return neighbors"],
+        "<deltas>", "<torus>", "<dists>", "<where>", "<neighbors>", "return v3"],
         mapper=lambda g: {ast.unparse(deltas): "<deltas>", ast.unparse(tor): "<torus>", ast.unparse(dists): "<dists>",
                           ast.unparse(where): "<where>", ast.unparse(nb): "<neighbors>"}.get(g, g))
     return "Definition gen_cs_legacy_skeleton_ok : bool := true."
@@ -425,10 +452,13 @@ def c_exp_growth():
     """fraction = 0.2; n = max(int(round(fraction * self._n_agents)), 1): over Z, int(round((p/q) * e)) is
     (2 p e + q) / (2 q) (no half-way case exists for an odd q; checked), the guard is  shape[0] <= index"""
     fn, branch = _add_parts()
-    frac = [s for s in branch.body if isinstance(s, ast.Assign) and ast.unparse(s.targets[0]) == "fraction"]
-    nst = [s for s in branch.body if isinstance(s, ast.Assign) and ast.unparse(s.targets[0]) == "n"]
-    if len(frac) != 1 or len(nst) != 1 or not isinstance(frac[0].value, ast.Constant) or not isinstance(frac[0].value.value, float):
+    if len(branch.body) != 3 or not all(isinstance(x, ast.Assign) for x in branch.body):
+        raise T.Broken("growth branch: expected `fraction = <float>`, `n = ...`, `self._agent_positions = ...`")
+    frac, nst = [branch.body[0]], [branch.body[1]]
+    if not (isinstance(frac[0].targets[0], ast.Name) and isinstance(nst[0].targets[0], ast.Name)
+            and isinstance(frac[0].value, ast.Constant) and isinstance(frac[0].value.value, float)):
         raise T.Broken("growth branch: expected `fraction = <float>` and `n = ...`")
+    fname = frac[0].targets[0].id
     fr = Fraction(str(frac[0].value.value))
     if fr.denominator % 2 == 0:
         raise T.Broken("fraction with an even denominator: round() has half-way cases")
@@ -443,8 +473,8 @@ def c_exp_growth():
                 m = n.args[0].args[0]
                 if isinstance(m, ast.BinOp) and isinstance(m.op, ast.Mult):
                     sides = [m.left, m.right]
-                    f = [x for x in sides if ast.unparse(x) == "fraction"]
-                    o = [x for x in sides if ast.unparse(x) != "fraction"]
+                    f = [x for x in sides if ast.unparse(x) == fname]
+                    o = [x for x in sides if ast.unparse(x) != fname]
                     if len(f) == 1 and len(o) == 1:
                         R.hits += 1
                         num = ast.BinOp(left=ast.BinOp(left=ast.Constant(value=2 * fr.numerator), op=ast.Mult(), right=o[0]),
@@ -457,7 +487,9 @@ def c_exp_growth():
     if R.hits != 1:
         raise T.Broken("n is not built from int(round(fraction * <count>))")
     t, k = _tr(attrs={"_n_agents": "n_agents"}).expr(e)
-    g = _tr(attrs={}).bexpr(ast.parse(ast.unparse(branch.test).replace("self._agent_positions.shape[0]", "capacity"), mode="eval").body)
+    iname = _stmts(fn)[0].targets[0].id if isinstance(_stmts(fn)[0], ast.Assign) else "index"
+    g = _tr(attrs={}).bexpr(ast.parse(ast.unparse(branch.test).replace("self._agent_positions.shape[0]", "capacity")
+                                      .replace(iname, "index"), mode="eval").body)
     return (f"Definition gen_cs_growth (n_agents : Z) : Z :=\n  {t}.\n"
             f"Definition gen_cs_growth_guard (capacity index : Z) : bool :=\n  {g}.")
 
@@ -476,18 +508,24 @@ def _remove_parts():
 def c_exp_reindex():
     """the loop over active_agents[index:] writes  _agent_to_index[agent] = old_index - 1"""
     fn, st, loop, cp = _remove_parts()
-    if ast.unparse(loop.target) != "agent" or ast.unparse(loop.iter).replace("::", ":") != "self.active_agents[index:]":
+    iname = st[0].targets[0].id if isinstance(st[0], ast.Assign) and isinstance(st[0].targets[0], ast.Name) else None
+    if iname is None or ast.unparse(st[0].value) != "self._agent_to_index[agent]":
+        raise T.Broken("_remove_agent does not start with index = self._agent_to_index[agent]")
+    lv = ast.unparse(loop.target)
+    if ast.unparse(loop.iter).replace("::", ":") != f"self.active_agents[{iname}:]":
         raise T.Broken("re-indexing loop is not `for agent in self.active_agents[index:]`")
-    body = [ast.unparse(s) for s in loop.body]
-    if len(body) != 3 or body[0] != "old_index = self._agent_to_index[agent]" \
-            or not body[1].startswith("self._agent_to_index[agent] = ") or not body[2].startswith("self._index_to_agent["):
+    b = loop.body
+    if not (len(b) == 3 and all(isinstance(x, ast.Assign) for x in b) and isinstance(b[0].targets[0], ast.Name)
+            and ast.unparse(b[0].value) == f"self._agent_to_index[{lv}]"
+            and ast.unparse(b[1].targets[0]) == f"self._agent_to_index[{lv}]"
+            and isinstance(b[2].targets[0], ast.Subscript) and ast.unparse(b[2].targets[0].value) == "self._index_to_agent"
+            and ast.unparse(b[2].value) == lv):
         raise T.Broken("unexpected re-indexing loop body")
-    t, k = _tr().expr(loop.body[1].value)
-    t2, k2 = _tr().expr(loop.body[2].targets[0].slice)
-    if ast.unparse(loop.body[2].value) != "agent":
-        raise T.Broken("_index_to_agent is not updated with the agent")
-    return (f"Definition gen_cs_reindex (old_index : Z) : Z :=\n  {t}.\n"
-            f"Definition gen_cs_reindex_i2a (old_index : Z) : Z :=\n  {t2}.")
+    old = b[0].targets[0].id
+    t, k = _tr().expr(b[1].value)
+    t2, k2 = _tr().expr(b[2].targets[0].slice)
+    return (f"Definition gen_cs_reindex ({old} : Z) : Z :=\n  {t}.\n"
+            f"Definition gen_cs_reindex_i2a ({old} : Z) : Z :=\n  {t2}.")
 
 
 @_guard
@@ -504,7 +542,8 @@ def c_exp_compact():
     if any(k != "Z" for _, k in parts):
         raise pyexpr.Unsupported("slice bounds")
     a, b, c, d = (p[0] for p in parts)
-    return f"Definition gen_cs_compact (index n : Z) : (Z * Z) * (Z * Z) :=\n  (({a}, {b}), ({c}, {d}))."
+    iname = st[0].targets[0].id if isinstance(st[0], ast.Assign) and isinstance(st[0].targets[0], ast.Name) else "index"
+    return f"Definition gen_cs_compact ({iname} n : Z) : (Z * Z) * (Z * Z) :=\n  (({a}, {b}), ({c}, {d}))."
 
 
 @_guard
@@ -512,12 +551,14 @@ def c_exp_diff():
     """calculate_difference_vector per axis (position: the agent's coordinate, point: the query coordinate)"""
     fn = _fn(EXP, "ContinuousSpace", "calculate_difference_vector", ["self", "point", "agents"])
     st = _stmts(fn)
-    keep = [s for s in st if not (isinstance(s, ast.Assign) and ast.unparse(s.targets[0]) in ("point", "positions"))]
-    if len(st) - len(keep) != 2:
+    if not (len(st) >= 3 and ast.unparse(st[0]) == "point = np.asanyarray(point)" and isinstance(st[1], ast.Assign)
+            and isinstance(st[1].targets[0], ast.Name)):
         raise T.Broken("expected `point = np.asanyarray(point)` and `positions = ...` before the arithmetic")
-    stmts = _axis(_premask(keep), vec=["delta", "inverse_delta", "out"])
+    pname = st[1].targets[0].id
+    keep = st[2:]
+    stmts = _axis(_premask(keep), vec=[n for n in pyexpr.local_names(fn) if n != pname])
     body = _tr(bools=["torus"], attrs=_exp_attrs()).body(stmts, "Z")
-    return (f"Definition gen_cs_diff_axis (lo hi : Z) (torus : bool) (positions point : Z) : Z :=\n  {body}.")
+    return (f"Definition gen_cs_diff_axis (lo hi : Z) (torus : bool) ({pname} point : Z) : Z :=\n  {body}.")
 
 
 def _dist_parts():
@@ -533,25 +574,30 @@ def _dist_parts():
 def c_exp_dist():
     """torus branch of calculate_distances per axis: delta = |point - positions|; delta = min(delta, size - delta)"""
     fn, st, branch = _dist_parts()
-    ds = [s for s in branch.body if isinstance(s, ast.Assign) and ast.unparse(s.targets[0]) == "delta"]
-    if len(ds) != 2 or branch.body[:2] != ds:
+    ds = list(branch.body[:2])
+    if not (len(ds) == 2 and all(isinstance(x, ast.Assign) and isinstance(x.targets[0], ast.Name) for x in ds)
+            and ds[0].targets[0].id == ds[1].targets[0].id):
         raise T.Broken("torus branch does not start with the two `delta = ...` statements")
-    stmts = _axis(ds + [ast.Return(value=ast.Name(id="delta", ctx=ast.Load()))], vec=[])
+    dn = ds[0].targets[0].id
+    pn = st[1].body[0].targets[0].id if isinstance(st[1], ast.If) and isinstance(st[1].body[0], ast.Assign) else "positions"
+    stmts = _axis(ds + [ast.Return(value=ast.Name(id=dn, ctx=ast.Load()))], vec=[])
     body = _tr(attrs=_exp_attrs()).body(stmts, "Z")
-    return f"Definition gen_cs_dist_axis (lo hi : Z) (point positions : Z) : Z :=\n  {body}."
+    return f"Definition gen_cs_dist_axis (lo hi : Z) (point {pn} : Z) : Z :=\n  {body}."
 
 
 @_guard
 def c_exp_kth():
     """indices = np.argpartition(dists, k - 1)[:k] -> (kth, how many are kept)"""
     fn = _fn(EXP, "ContinuousSpace", "get_k_nearest_agents", ["self", "point", "k"])
-    st = [s for s in _stmts(fn) if isinstance(s, ast.Assign) and ast.unparse(s.targets[0]) == "indices"]
-    if len(st) != 1:
-        raise T.Broken("expected one `indices = ...`")
+    all_st = _stmts(fn)
+    st = [s for s in all_st if isinstance(s, ast.Assign) and "np.argpartition" in ast.unparse(s.value)]
+    if len(st) != 1 or not (isinstance(all_st[0], ast.Assign) and isinstance(all_st[0].targets[0], ast.Tuple)):
+        raise T.Broken("expected `dists, agents = ...` and one `indices = np.argpartition(...)`")
+    dname = ast.unparse(all_st[0].targets[0].elts[0])
     v = st[0].value
     if not (isinstance(v, ast.Subscript) and isinstance(v.slice, ast.Slice) and v.slice.lower is None and v.slice.step is None
             and isinstance(v.value, ast.Call) and ast.unparse(v.value.func) == "np.argpartition"
-            and len(v.value.args) == 2 and ast.unparse(v.value.args[0]) == "dists" and not v.value.keywords):
+            and len(v.value.args) == 2 and ast.unparse(v.value.args[0]) == dname and not v.value.keywords):
         raise T.Broken("indices is not np.argpartition(dists, <kth>)[:<count>]")
     tr = _tr()
     a, _ = tr.expr(v.value.args[1])
@@ -563,11 +609,13 @@ def c_exp_kth():
 def c_exp_radius():
     """logical = distances <= radius   (un-squared: the models compare 0 <= r and d^2 <= r^2)"""
     fn = _fn(EXP, "ContinuousSpace", "get_agents_in_radius", ["self", "point", "radius"])
-    st = [s for s in _stmts(fn) if isinstance(s, ast.Assign) and ast.unparse(s.targets[0]) == "logical"]
-    if len(st) != 1:
-        raise T.Broken("expected one `logical = ...`")
+    all_st = _stmts(fn)
+    st = [s for s in all_st if isinstance(s, ast.Assign) and isinstance(s.value, ast.Compare)]
+    if len(st) != 1 or not (isinstance(all_st[0], ast.Assign) and isinstance(all_st[0].targets[0], ast.Tuple)):
+        raise T.Broken("expected `distances, agents = ...` and one `logical = <comparison>`")
+    dname = ast.unparse(all_st[0].targets[0].elts[0])
     t = _tr().bexpr(st[0].value)
-    return f"Definition gen_cs_in_radius (distances radius : Z) : bool :=\n  {t}."
+    return f"Definition gen_cs_in_radius ({dname} radius : Z) : bool :=\n  {t}."
 
 
 @_guard
@@ -600,47 +648,63 @@ def c_agent_setter():
 
 
 def c_exp_skeleton():
-    """the glue of the experimental class, statement for statement what Model/ContExp.v transcribes"""
+    """the glue of the experimental class and of ContinuousSpaceAgent, statement for statement what Model/ContExp.v
+    transcribes - compared modulo the names of local variables (v0, v1, ...), exception message texts, docstrings,
+    comments and formatting"""
     C = "ContinuousSpace"
     fn, branch = _add_parts()
     _skel("_add_agent", fn, [
-        "index = self._n_agents", "self._n_agents += 1", "<grow>", "self._agent_to_index[agent] = index",
-        "self._index_to_agent[index] = agent", "self.active_agents.append(agent)",
-        "self.agent_positions = self._agent_positions[0:self._n_agents]", "return index"],
+        "v0 = self._n_agents", "self._n_agents += 1", "<grow>", "self._agent_to_index[agent] = v0",
+        "self._index_to_agent[v0] = agent", "self.active_agents.append(agent)",
+        "self.agent_positions = self._agent_positions[0:self._n_agents]", "return v0"],
         mapper=lambda g: "<grow>" if g == ast.unparse(branch) else g)
     inner = [ast.unparse(s) for s in branch.body]
     if len(inner) != 3 or inner[2] != ("self._agent_positions = np.vstack([self._agent_positions, "
-                                       "np.empty((n, self.dimensions.shape[0]))])"):
+                                       "np.empty((v2, self.dimensions.shape[0]))])"):
         raise T.Broken("growth branch: the array is not extended by vstack with n fresh rows")
     fn, st, loop, cp = _remove_parts()
     _skel("_remove_agent", fn, [
-        "index = self._agent_to_index[agent]", "self._agent_to_index.pop(agent, None)", "self._index_to_agent.pop(index, None)",
-        "del self.active_agents[index]", "<loop>", "<compact>", "self._n_agents -= 1",
+        "v0 = self._agent_to_index[agent]", "self._agent_to_index.pop(agent, None)", "self._index_to_agent.pop(v0, None)",
+        "del self.active_agents[v0]", "<loop>", "<compact>", "self._n_agents -= 1",
         "self.agent_positions = self._agent_positions[0:self._n_agents]"],
         mapper=lambda g: {ast.unparse(loop): "<loop>", ast.unparse(cp): "<compact>"}.get(g, g))
     fn, st, branch = _dist_parts()
     _skel("calculate_distances", fn, [
         "point = np.asanyarray(point)",
-        "if agents is None:\n    positions = self.agent_positions\n    agents = self.active_agents\nelse:\n"
-        "    positions = self._agent_positions[[self._agent_to_index[a] for a in agents]]\n    agents = np.asarray(agents)",
-        "<metric>", "return (dists, agents)"], mapper=lambda g: "<metric>" if g == ast.unparse(branch) else g)
+        "if agents is None:\n    v0 = self.agent_positions\n    agents = self.active_agents\nelse:\n"
+        "    v0 = self._agent_positions[[self._agent_to_index[v4] for v4 in agents]]\n    agents = np.asarray(agents)",
+        "<metric>", "return (v2, agents)"], mapper=lambda g: "<metric>" if g == ast.unparse(branch) else g)
     rest = [ast.unparse(s) for s in branch.body[2:]]
-    if rest != ["dists = delta[:, 0] ** 2", "for i in range(1, self.ndims):\n    dists += delta[:, i] ** 2", "dists = np.sqrt(dists)"]:
+    if rest != ["v2 = v1[:, 0] ** 2", "for v3 in range(1, self.ndims):\n    v2 += v1[:, v3] ** 2", "v2 = np.sqrt(v2)"]:
         raise T.Broken("torus branch: the squares are not summed over all axes and rooted")
-    if [ast.unparse(s) for s in branch.orelse] != ["dists = cdist(point[np.newaxis, :], positions, **kwargs)[0, :]"]:
+    if [ast.unparse(s) for s in branch.orelse] != ["v2 = cdist(point[np.newaxis, :], v0, **kwargs)[0, :]"]:
         raise T.Broken("bounded branch is not scipy cdist of the point against the positions")
     fn = _fn(EXP, C, "calculate_difference_vector", ["self", "point", "agents"])
     pos = [ast.unparse(s) for s in _stmts(fn)[:2]]
     if pos != ["point = np.asanyarray(point)",
-               "positions = self.agent_positions if agents is None else self._agent_positions[[self._agent_to_index[a] for a in agents]]"]:
+               "v0 = self.agent_positions if agents is None else self._agent_positions[[self._agent_to_index[v5] for v5 in agents]]"]:
         raise T.Broken("calculate_difference_vector: unexpected selection of the rows")
+    if ast.unparse(_stmts(fn)[-1]) != "return v1":
+        raise T.Broken("calculate_difference_vector does not return the difference")
     _skel("get_agents_in_radius", _fn(EXP, C, "get_agents_in_radius", ["self", "point", "radius"]), [
-        "distances, agents = self.calculate_distances(point)", "logical = distances <= radius",
-        "agents = list(compress(agents, logical))", "return (agents, distances[logical])"])
+        "v0, v1 = self.calculate_distances(point)", "<logical>",
+        "v1 = list(compress(v1, v2))", "return (v1, v0[v2])"], mapper=lambda g: "<logical>" if g.startswith("v2 = ") else g)
     fnk = _fn(EXP, C, "get_k_nearest_agents", ["self", "point", "k"])
     _skel("get_k_nearest_agents", fnk, [
-        "dists, agents = self.calculate_distances(point)", "<indices>", "agents = [agents[i] for i in indices]",
-        "return (agents, dists[indices])"], mapper=lambda g: "<indices>" if g.startswith("indices = ") else g)
+        "v0, v1 = self.calculate_distances(point)", "<indices>", "v1 = [v1[v3] for v3 in v2]",
+        "return (v1, v0[v2])"], mapper=lambda g: "<indices>" if g.startswith("v2 = ") else g)
+    # ContinuousSpaceAgent: creation, removal and the two neighbour wrappers (round 3 of the model)
+    A = "ContinuousSpaceAgent"
+    _skel("ContinuousSpaceAgent.__init__", _fn(AGT, A, "__init__", ["self", "space", "model"]), [
+        "super().__init__(model)", "self.space: ContinuousSpace = space", "self.space._add_agent(self)"])
+    _skel("ContinuousSpaceAgent.remove", _fn(AGT, A, "remove", ["self"]), [
+        "super().remove()", "self.space._remove_agent(self)", "self._mesa_index = None", "self.space = None"])
+    _skel("get_neighbors_in_radius", _fn(AGT, A, "get_neighbors_in_radius", ["self", "radius"]), [
+        "v0, v1 = self.space.get_agents_in_radius(self.position, radius=radius)",
+        "v2 = np.asarray([v3 is not self for v3 in v0])", "v0 = list(compress(v0, v2))", "return (v0, v1[v2])"])
+    _skel("get_nearest_neighbors", _fn(AGT, A, "get_nearest_neighbors", ["self", "k"]), [
+        "v0, v1 = self.space.get_k_nearest_agents(self.position, k=k + 1)",
+        "v2 = np.asarray([v3 is not self for v3 in v0])", "v0 = list(compress(v0, v2))", "return (v0, v1[v2])"])
     return "Definition gen_cs_exp_skeleton_ok : bool := true."
 
 
